@@ -122,6 +122,7 @@ class SharedMemoryFileBufferedCollection(FileBufferedCollection):
             else:
                 # If the contents have not been changed since the initial read,
                 # we don't need to rewrite it.
+                written = False
                 try:
                     # Validate that the file hasn't been changed by
                     # something else.
@@ -132,6 +133,7 @@ class SharedMemoryFileBufferedCollection(FileBufferedCollection):
                         # file; this instance may not have loaded it (yet).
                         self._data = cached_data["contents"]
                         self._save_to_resource()
+                        written = True
                 finally:
                     # Whether or not an error was raised, the cache must be
                     # cleared to ensure a valid final buffer state, unless
@@ -147,8 +149,11 @@ class SharedMemoryFileBufferedCollection(FileBufferedCollection):
                         # we could modify this item again later, leading to
                         # another (possibly forced) flush afterwards that will
                         # appear invalid if the metadata isn't updated to the
-                        # metadata after the current flush.
-                        cached_data["metadata"] = self._get_file_metadata()
+                        # metadata after the current flush. An entry that was
+                        # not written (it was only read, or its flush failed)
+                        # must keep describing the file its contents came from.
+                        if written:
+                            cached_data["metadata"] = self._get_file_metadata()
                         cached_data["modified"] = False
         else:
             # If this object is still buffered _and_ this wasn't a force flush,
